@@ -21,7 +21,8 @@ for patch in sorted(glob.glob("/verif/fixes/C*-*.patch")):
         mm = re.search(r"(fix:[^\n`]+)", t)
         if mm:
             subj = mm.group(1).strip()
-    hit = [c for c in commits if subj and c[1].strip() == subj]
+    hit = [c for c in commits if subj and (c[1].strip() == subj or (len(subj) > 40 and c[1].strip().startswith(subj)))]
+    if hit: subj = hit[0][1].strip()
     if not hit:
         continue
     k.append({"property": prop, "key": key, "status": "fixed", "commit": hit[0][0], "patch": base,
